@@ -59,6 +59,10 @@ Lemma in_frame_live o F G s : in_frame o F -> ow_own (G ++ F) s -> live_in o s.
 Proof. intros [A B] O. eapply own_F_live; eauto. Qed.
 Lemma in_frame_live0 o F s : in_frame o F -> ow_own F s -> live_in o s.
 Proof. intros H O. apply in_frame_live with (F := F) (G := []); auto. Qed.
+Lemma in_frame_weaken o F G : in_frame o F -> in_frame o (G ++ F).
+Proof. intros [A B]. split; auto. intros j. rewrite cnt_app. specialize (B j). lia. Qed.
+Lemma in_frame_perm o F F' : (forall j, cnt j F = cnt j F') -> in_frame o F -> in_frame o F'.
+Proof. intros E [A B]. split; auto. intros j. rewrite <- E. auto. Qed.
 
 Lemma hostport_null fixed sh wantp h0 p0 : ow_parse_hostport_gen fixed sh None wantp h0 p0 = ow_ret (false, h0, p0).
 Proof. reflexivity. Qed.
